@@ -690,6 +690,7 @@ func checkC18(r *Report) {
 		r.floor("C18.h/ENTRY-OWN-TYPE", "requirements built inside loops in api.go", nET, 2)
 		nNF := sentinelWrappedRule(r, p, "C18.i/NOTFOUND-WRAPPED", "ErrNotFound")
 		r.floor("C18.i/NOTFOUND-WRAPPED", "not-found answers of the clients in package resolve", nNF, 6)
+		handedOutCopiedRule(r, p, "C18.j/HANDED-OUT-COPIED")
 		nNT := sentinelComparedRule(r, p, "C18.i/NOTFOUND-TESTED", "ErrNotFound")
 		r.floor("C18.i/NOTFOUND-TESTED", "tests for ErrNotFound in the resolvers and clients", nNT, 1)
 	}
